@@ -290,6 +290,13 @@ pub const MAX_MSG_ABSOLUTE: usize = 8972;
 
 const MSG_HEADER_LEN: usize = 12;
 
+/// Max length of a decoded domain name (RFC 1035 section 2.3.4).
+const MAX_NAME_LEN: usize = 255;
+
+/// Max number of compression pointers followed while decoding one name.
+/// Every label takes at least two bytes, hence a name has at most 127 labels.
+const MAX_NAME_POINTERS: usize = 127;
+
 // Definitions for DNS message header "flags" field
 //
 // The "flags" field is 16-bit long, in this format:
@@ -2495,6 +2502,7 @@ impl DnsIncoming {
         let mut offset = start_offset;
         let mut name = "".to_string();
         let mut at_end = false;
+        let mut pointers_followed = 0;
 
         // From RFC1035:
         // "...Domain names in messages are expressed in terms of a sequence of labels.
@@ -2547,6 +2555,13 @@ impl DnsIncoming {
                         .map_err(|e| Error::Msg(format!("read_name: from_utf8: {e}")))?;
                     name += ".";
                     offset += length as usize;
+
+                    // RFC 1035 section 2.3.4: a name is 255 octets or less.
+                    if name.len() > MAX_NAME_LEN {
+                        return Err(Error::Msg(format!(
+                            "read_name: name is longer than {MAX_NAME_LEN} bytes"
+                        )));
+                    }
                 }
                 0xC0 => {
                     // Message compression.
@@ -2564,6 +2579,17 @@ impl DnsIncoming {
                         return Err(Error::Msg(format!(
                             "Invalid name compression: pointer {} must be less than the start offset {}",
                             &pointer, &start_offset
+                        )));
+                    }
+
+                    // A pointer that is below the start of the name can still lead
+                    // (through labels in between) back to itself. A name of at most
+                    // MAX_NAME_LEN bytes never needs more than MAX_NAME_POINTERS
+                    // pointers, so give up instead of looping forever.
+                    pointers_followed += 1;
+                    if pointers_followed > MAX_NAME_POINTERS {
+                        return Err(Error::Msg(format!(
+                            "read_name: more than {MAX_NAME_POINTERS} compression pointers in a name"
                         )));
                     }
 
